@@ -20,7 +20,9 @@ Outcomes == {"ok", "skipped", "error", "panic"}
 \* Further ones: an OID whose first two arcs do not fit the one subidentifier they share (40 * a + b); an IPv4 octet
 \* outside 0..255; a duration whose number does not fit an integer; a negative serial number (C02: non-negative).
 MustNotSucceed == {"oid arc >= 2^63", "oid arc 40 digits", "integer >= 2^63", "integer 10^30", "integer <= -2^63",
-                   "oid first two arcs overflow", "ip octet 256", "ip octet -1", "duration 20 digits", "serial negative"}
+                   "oid first two arcs overflow", "ip octet 256", "ip octet -1", "duration 20 digits", "serial negative",
+                   "oid first two arcs above 31 bits", "duration wraps to a small value", "duration wraps to zero",
+                   "non-ASCII text for an IA5String"}
 
 Allowed(class) == IF class \in MustNotSucceed THEN {"skipped", "error"} ELSE {"ok", "skipped", "error"}
 
